@@ -91,6 +91,18 @@ Theorem C16_reputation_once_per_head : forall (R : Type) (rzero : R) (rep_inc : 
 Proof. exact @reputation_once_per_head. Qed.
 Print Assumptions C16_reputation_once_per_head.
 
+(* the credits do not depend on which (not old) views are asked: the state after a question is determined
+   by the state before and the committed head *)
+Theorem C16_reputation_state_view_independent : forall (R : Type) (rzero : R) (rep_inc : nat -> Z -> R) (radd : R -> R -> R)
+    (weight_of : R -> N) (pick : list (rid * N) -> Z -> option rid)
+    (c : config) (cl : Z) (st : rep_state) (h : head) (v1 v2 : view),
+  N.ltb (u64_sub (u64 v1) (u64_of_int cl)) (h_view h) = false ->
+  N.ltb (u64_sub (u64 v2) (u64_of_int cl)) (h_view h) = false ->
+  snd (reputation rzero rep_inc radd weight_of pick c cl st h v1)
+  = snd (reputation rzero rep_inc radd weight_of pick c cl st h v2).
+Proof. exact @reputation_state_view_independent. Qed.
+Print Assumptions C16_reputation_state_view_independent.
+
 (* with the weight list sorted by replica id (repaired comparator, fixes/C16-reputation-sort.patch) the
    reputation scheme's answers do not depend on the order in which the certificates list their signers:
    two replicas whose states agree entry-wise, fed heads that differ only in that order, answer alike *)
